@@ -650,6 +650,11 @@ func (r *Rng) numsText(k int) string {
 		if r.chance(1, 8) {
 			xs[i] = strconv.FormatFloat(r.wktOrd(), 'g', -1, 64)
 		}
+		if r.chance(1, 60) {
+			// one number, however many characters it takes to write it
+			pad := strings.Repeat("0", []int{200, 509, 510, 511, 512, 600, 1023, 1100, 4100}[r.Intn(9)])
+			xs[i] = []string{"0." + pad + "1", "1" + pad[:len(pad)%300] + "." + pad + "5", "-0." + pad + "25", pad + "7"}[r.Intn(4)]
+		}
 	}
 	return strings.Join(xs, " ")
 }
